@@ -1547,7 +1547,9 @@ func (in *Interp) genTMethod(g *GenT, name string) Val {
 	switch name {
 	case "IsPrimitive":
 		return boolV(g.prim())
-	case "IrType", "PtrType", "LLVMType":
+	case "PtrType":
+		return &IRTy{Name: "ptr"}
+	case "IrType", "LLVMType":
 		return &IRTy{Name: "type(" + g.String() + ")"}
 	case "Name":
 		return StrV(g.String())
